@@ -591,3 +591,42 @@ Example C08_src_class_level_satisfiable :
   = Ok (PTuple [sch_json ex_pt (class_schema no_einfo (ex_smap (s2p "P")) ex_P); defs_token]) /\
   class_json ex_pt no_einfo (ex_smap (s2p "T")) ex_T = sch_json ex_pt (class_schema no_einfo (ex_smap (s2p "T")) ex_T).
 Proof. exact class_level_satisfiable. Qed.
+
+(* ------------------------------------------------------------------ class level, closed against the hand model *)
+From TP Require Import Schema.SchemaSrcClassModel.
+
+(* what the generated structure_to_schema builds for a class in object form IS the rendering of class_schema, for every
+   class of the domain [class_dom]: required list duplicate-free and naming fields, renamed keys pairwise distinct *)
+Theorem C08_src_class_json_model : forall pat_text ei m c,
+    class_dom m c = true -> wrapper_form c = false ->
+    class_json pat_text ei m c = sch_json pat_text (class_schema ei m c).
+Proof. exact class_json_model. Qed.
+
+(* the generated FIXPOINT (nested classes, $refs through _map_class_reference) returns the rendering of the hand model's
+   class_schema, for every class environment whose reference graph is explored within the fuel ([closed]) and whose
+   classes are in the domain [cls_ok] *)
+Theorem C08_src_structure_to_schema_fix : forall pat_text ei e smap defs_store,
+    (forall k v, defs_store k v = Ok tt) ->
+    forall ffuel fuel c sm,
+      find_class e (c_name c) = Some c -> cls_ok pat_text ei smap ffuel c = true ->
+      closed e fuel (cls_ok pat_text ei smap ffuel) (class_refs c) = true ->
+      structure_to_schema (heap_of pat_text ei e) (agg_of smap) defs_store ffuel (S fuel) (cls_val (c_name c)) sm
+      = Ok (PTuple [sch_json pat_text (class_schema ei (smap (c_name c)) c); defs_token]).
+Proof. exact generated_structure_to_schema_fix. Qed.
+
+(* a Number / String / Boolean field that carries a default (`_default` attribute) exports as the field without it *)
+Theorem C08_src_scalar_default : forall pat_text ei s2s defs_store n f v sm,
+    scalar f = true ->
+    convert_to_schema s2s defs_store (S n)
+      (match field_obj pat_text ei f with PStruct c a => PStruct c ((s2p "_default", v) :: a) | o => o end) sm
+    = Ok (sch_json pat_text (fschema ei f)).
+Proof. exact convert_scalar_default. Qed.
+
+Print Assumptions C08_src_class_json_model.
+Print Assumptions C08_src_structure_to_schema_fix.
+Print Assumptions C08_src_scalar_default.
+
+Example C08_src_fix_satisfiable :
+  find_class ex_env (c_name ex_T) = Some ex_T /\ cls_ok ex_pt no_einfo ex_smap 6 ex_T = true /\
+  closed ex_env 1 (cls_ok ex_pt no_einfo ex_smap 6) (class_refs ex_T) = true /\ class_refs ex_T = [s2p "P"].
+Proof. exact fix_satisfiable. Qed.
